@@ -176,7 +176,7 @@ def ev_interval(case):
         return [set(order[c:]) for c in sorted(cuts)], sorted(cuts)
 
     try:
-        for burn in case["burns"]:
+        for burn in list(case["burns"]) + [N, N + 1]:  # (the last two leave no sample at all)
             for thin in case["thins"]:
                 for f in case["fractions"]:
                     for want in [None] + list(range(1, N + 3)):
@@ -187,7 +187,7 @@ def ev_interval(case):
                         for idx in ([idx_user] if want is None else [idx_over, idx_user]):
                             sets, cuts = top_fraction(idx, f)
                             cands += sets
-                        if not idx_user:
+                        if not idx_user and want is not None and want > 2:
                             continue
 
                         def body(ctx):
